@@ -32,7 +32,7 @@ def build(cid, t, st, named=None, solve=None, seq=None):
         rng = seq
         cur = s
         for _ in range(rng.choice([1, 2])):
-            h = rng.choice([0.05, 0.2, 0.34, 0.5, rng.random()])
+            h = rng.choice([0.05, 0.34, 0.11 + rng.random() * 0.3, rng.random()])   # never AT a typical probability (1/2, 1/4, 1/5): see C18.not_judged
             inplace = rng.random() < 0.5
             if not inplace and rng.random() < 0.5:
                 i_again = cb.info(cur)
